@@ -35,6 +35,8 @@ Definition ST_READY : Z := 0.
 Definition ST_BLOCKED : Z := 1.
 Definition ST_FREE_READY : Z := 2.
 Definition ST_FREE_READY2 : Z := 3.
+(** MYTH_CANCELED = PTHREAD_CANCELED = (void * )-1: the result of a thread that acted on a cancellation *)
+Definition CANCELED : Z := -1.
 
 (** myth_desc_is_finished: [status >= MYTH_STATUS_FREE_READY] *)
 Definition is_finished (st : Z) : bool := ST_FREE_READY <=? st.
@@ -135,6 +137,9 @@ Inductive pc :=
 | DSet (t : nat)                        (* detach.set, lock held *)
 | DSpin (t : nat)
 | DReap (t : nat)                       (* detach.reap *)
+| KCancel (t : nat)                      (* myth_cancel(t): silent; cancelled := 1 (under t's lock; no POINT inside: one step) *)
+| KTest                                 (* myth_testcancel: silent; read cancel_enabled && cancelled (under the own lock); act or go on *)
+| KSet (b : bool)                       (* myth_setcancelstate: silent; cancel_enabled := b (under the own lock) *)
 | FLock                                 (* finishing: silent spin_lock(own lock) *)
 | FReadJoin                             (* finish.readjoin, lock held *)
 | Finished.                             (* the thread's own code is over; its callback may still run *)
@@ -159,7 +164,9 @@ Record ghost := mkGhost {
   desc_alloc : nat; desc_freed : nat; stack_alloc : nat; stack_freed : nat;
   stack_sz : Z;                (* requested stack size (0 = default class) *)
   t_ret : nat;                 (* clock of the return / exit (0 = not yet; the clock starts at 1) *)
-  t_ready2 : nat }.            (* clock of the FREE_READY2 store (0 = not yet) *)
+  t_ready2 : nat;              (* clock of the FREE_READY2 store (0 = not yet) *)
+  creq : bool;                 (* a myth_cancel naming THIS incarnation has stored its request *)
+  acted : bool }.              (* the thread terminated itself at a myth_testcancel *)
 
 Record thread := mkThread {
   status : Z;
@@ -169,10 +176,12 @@ Record thread := mkThread {
   result : Z;
   main : pc;
   cb : cbpc;
-  gh : ghost }.
+  gh : ghost;
+  cancelled : bool;            (* a cancellation request is pending (myth_cancel; reset by creation) *)
+  cancel_enabled : bool }.     (* myth_setcancelstate; set by creation *)
 
-Definition ghost0 : ghost := mkGhost 0 0 None None None false 0 0 0 0 0 0 0 0.
-Definition tnone : thread := mkThread 0 None false None 0 NoThread CbNone ghost0.
+Definition ghost0 : ghost := mkGhost 0 0 None None None false 0 0 0 0 0 0 0 0 false false.
+Definition tnone : thread := mkThread 0 None false None 0 NoThread CbNone ghost0 false false.
 
 (** the completed joins: (joiner, target, value read, clock of the reap step) *)
 Record state := mkState {
@@ -186,50 +195,64 @@ Inductive op :=
 | Create (c : nat) (a : option attr) (nullid : bool) (argv : Z)
 | Join (t : nat) | TryJoin (t : nat) | TimedJoin (t : nat) | Detach (t : nat)
 | Return (v : Z)              (* the start function returns v *)
-| Exit (v : Z).               (* myth_exit(v), from any depth *)
+| Exit (v : Z)                (* myth_exit(v), from any depth *)
+| Cancel (t : nat)            (* myth_cancel(t) *)
+| TestCancel                  (* myth_testcancel() *)
+| SetCancel (b : bool).       (* myth_setcancelstate(b ? ENABLE : DISABLE, &old) *)
 
 Inductive ev := ECall (o : op) | ETick | ECbTick | ERet (v : Z).
 
 (* ---- setters ---- *)
 Definition set_status (th : thread) (x : Z) : thread :=
-  mkThread x (join_thread th) (detached th) (lockh th) (result th) (main th) (cb th) (gh th).
+  mkThread x (join_thread th) (detached th) (lockh th) (result th) (main th) (cb th) (gh th) (cancelled th) (cancel_enabled th).
 Definition set_jt (th : thread) (x : option nat) : thread :=
-  mkThread (status th) x (detached th) (lockh th) (result th) (main th) (cb th) (gh th).
+  mkThread (status th) x (detached th) (lockh th) (result th) (main th) (cb th) (gh th) (cancelled th) (cancel_enabled th).
 Definition set_detached (th : thread) (x : bool) : thread :=
-  mkThread (status th) (join_thread th) x (lockh th) (result th) (main th) (cb th) (gh th).
+  mkThread (status th) (join_thread th) x (lockh th) (result th) (main th) (cb th) (gh th) (cancelled th) (cancel_enabled th).
 Definition set_lockh (th : thread) (x : option nat) : thread :=
-  mkThread (status th) (join_thread th) (detached th) x (result th) (main th) (cb th) (gh th).
+  mkThread (status th) (join_thread th) (detached th) x (result th) (main th) (cb th) (gh th) (cancelled th) (cancel_enabled th).
 Definition set_result (th : thread) (x : Z) : thread :=
-  mkThread (status th) (join_thread th) (detached th) (lockh th) x (main th) (cb th) (gh th).
+  mkThread (status th) (join_thread th) (detached th) (lockh th) x (main th) (cb th) (gh th) (cancelled th) (cancel_enabled th).
 Definition set_main (th : thread) (x : pc) : thread :=
-  mkThread (status th) (join_thread th) (detached th) (lockh th) (result th) x (cb th) (gh th).
+  mkThread (status th) (join_thread th) (detached th) (lockh th) (result th) x (cb th) (gh th) (cancelled th) (cancel_enabled th).
 Definition set_cb (th : thread) (x : cbpc) : thread :=
-  mkThread (status th) (join_thread th) (detached th) (lockh th) (result th) (main th) x (gh th).
+  mkThread (status th) (join_thread th) (detached th) (lockh th) (result th) (main th) x (gh th) (cancelled th) (cancel_enabled th).
 Definition set_gh (th : thread) (x : ghost) : thread :=
-  mkThread (status th) (join_thread th) (detached th) (lockh th) (result th) (main th) (cb th) x.
+  mkThread (status th) (join_thread th) (detached th) (lockh th) (result th) (main th) (cb th) x (cancelled th) (cancel_enabled th).
+Definition set_cancelled (th : thread) (x : bool) : thread :=
+  mkThread (status th) (join_thread th) (detached th) (lockh th) (result th) (main th) (cb th) (gh th) x (cancel_enabled th).
+Definition set_cancel_enabled (th : thread) (x : bool) : thread :=
+  mkThread (status th) (join_thread th) (detached th) (lockh th) (result th) (main th) (cb th) (gh th) (cancelled th) x.
 
 Definition g_started (g : ghost) (a : Z) : ghost :=
   mkGhost (S (runs g)) (garg g) (Some a) (retv g) (claimed g) (rdone g) (reaped g) (desc_alloc g) (desc_freed g)
-          (stack_alloc g) (stack_freed g) (stack_sz g) (t_ret g) (t_ready2 g).
+          (stack_alloc g) (stack_freed g) (stack_sz g) (t_ret g) (t_ready2 g) (creq g) (acted g).
 Definition g_returned (g : ghost) (v : Z) (now : nat) : ghost :=
   mkGhost (runs g) (garg g) (got g) (Some v) (claimed g) (rdone g) (reaped g) (desc_alloc g) (desc_freed g)
-          (stack_alloc g) (stack_freed g) (stack_sz g) now (t_ready2 g).
+          (stack_alloc g) (stack_freed g) (stack_sz g) now (t_ready2 g) (creq g) (acted g).
 Definition g_claim (g : ghost) (c : option nat) : ghost :=
   mkGhost (runs g) (garg g) (got g) (retv g) c (rdone g) (reaped g) (desc_alloc g) (desc_freed g)
-          (stack_alloc g) (stack_freed g) (stack_sz g) (t_ret g) (t_ready2 g).
+          (stack_alloc g) (stack_freed g) (stack_sz g) (t_ret g) (t_ready2 g) (creq g) (acted g).
 Definition g_rdone (g : ghost) : ghost :=
   mkGhost (runs g) (garg g) (got g) (retv g) (claimed g) true (reaped g) (desc_alloc g) (desc_freed g)
-          (stack_alloc g) (stack_freed g) (stack_sz g) (t_ret g) (t_ready2 g).
+          (stack_alloc g) (stack_freed g) (stack_sz g) (t_ret g) (t_ready2 g) (creq g) (acted g).
 (** one reap action: the descriptor goes to a free list *)
 Definition g_reap (g : ghost) : ghost :=
   mkGhost (runs g) (garg g) (got g) (retv g) (claimed g) true (S (reaped g)) (desc_alloc g) (S (desc_freed g))
-          (stack_alloc g) (stack_freed g) (stack_sz g) (t_ret g) (t_ready2 g).
+          (stack_alloc g) (stack_freed g) (stack_sz g) (t_ret g) (t_ready2 g) (creq g) (acted g).
 Definition g_free_stack (g : ghost) : ghost :=
   mkGhost (runs g) (garg g) (got g) (retv g) (claimed g) (rdone g) (reaped g) (desc_alloc g) (desc_freed g)
-          (stack_alloc g) (S (stack_freed g)) (stack_sz g) (t_ret g) (t_ready2 g).
+          (stack_alloc g) (S (stack_freed g)) (stack_sz g) (t_ret g) (t_ready2 g) (creq g) (acted g).
+Definition g_creq (g : ghost) : ghost :=
+  mkGhost (runs g) (garg g) (got g) (retv g) (claimed g) (rdone g) (reaped g) (desc_alloc g) (desc_freed g)
+          (stack_alloc g) (stack_freed g) (stack_sz g) (t_ret g) (t_ready2 g) true (acted g).
+(** the thread terminates itself at a testcancel: like exit(CANCELED) *)
+Definition g_acted (g : ghost) (now : nat) : ghost :=
+  mkGhost (runs g) (garg g) (got g) (Some CANCELED) (claimed g) (rdone g) (reaped g) (desc_alloc g) (desc_freed g)
+          (stack_alloc g) (stack_freed g) (stack_sz g) now (t_ready2 g) (creq g) true.
 Definition g_ready2 (g : ghost) (now : nat) : ghost :=
   mkGhost (runs g) (garg g) (got g) (retv g) (claimed g) (rdone g) (reaped g) (desc_alloc g) (desc_freed g)
-          (stack_alloc g) (stack_freed g) (stack_sz g) (t_ret g) now.
+          (stack_alloc g) (stack_freed g) (stack_sz g) (t_ret g) now (creq g) (acted g).
 
 (* ---- state access ---- *)
 Fixpoint upd {A} (l : list A) (i : nat) (x : A) : list A :=
@@ -262,7 +285,7 @@ Definition opt_is_none {A} (o : option A) : bool := match o with None => true | 
 
 (** thread 0 is the main thread of the process: it exists from the start and runs its program *)
 Definition thread_main0 : thread :=
-  mkThread 0 None false None 0 Idle CbNone (mkGhost 1 0 (Some 0) None None false 0 1 0 1 0 0 0 0).
+  mkThread 0 None false None 0 Idle CbNone (mkGhost 1 0 (Some 0) None None false 0 1 0 1 0 0 0 0 false false) false true.
 
 Definition init_state (n : nat) : state :=
   mkState (thread_main0 :: repeat tnone n) 1 false false [].
@@ -275,7 +298,8 @@ Definition init_state (n : nat) : state :=
     [det]: what the code stores into [detached]. *)
 Definition new_thread (creator : nat) (st : settings) (det : bool) (argv : Z) : thread :=
   mkThread ST_READY None det None argv (Created (s_cf st)) CbNone
-    (mkGhost 0 argv None None (if s_det st then Some creator else None) (s_det st) 0 1 0 1 0 (s_stack st) 0 0).
+    (mkGhost 0 argv None None (if s_det st then Some creator else None) (s_det st) 0 1 0 1 0 (s_stack st) 0 0 false false)
+    false true.
 
 Definition do_create (cfg : config) (s : state) (j c : nat) (a : option attr) (nullid : bool) (argv : Z) : option state :=
   if (c <? List.length (thr s))%nat && pc_is_nothread (main (gt s c)) then
@@ -312,6 +336,9 @@ Definition call_cfg (cfg : config) (s : state) (j : nat) (o : op) : option state
     | Return v | Exit v =>
         if (j =? 0)%nat then None                  (* the main thread leaves through myth_fini, not modelled *)
         else Some (modify s j (fun x => set_main (set_gh (set_result x v) (g_returned (gh x) v (clock s))) FLock))
+    | Cancel t => if exists_thread s t then Some (modify s j (fun x => set_main x (KCancel t))) else None
+    | TestCancel => Some (modify s j (fun x => set_main x KTest))
+    | SetCancel b => Some (modify s j (fun x => set_main x (KSet b)))
     end
   | _, _ => None
   end.
@@ -362,6 +389,15 @@ Definition tick (s : state) (j : nat) : option state :=
       goto (modify s t (fun x => set_gh (unlock (set_detached x true)) (g_rdone (gh x)))) (Done 0 None)
   | DSpin t => if status (gt s t) =? ST_FREE_READY2 then goto s (DReap t) else None
   | DReap t => goto (modify s t (fun x => set_gh x (g_reap (gh x)))) (Done 0 None)
+  (* the three cancellation operations take the descriptor lock around their single access to the two flags; no
+     other code reads or writes the flags, so the lock only serialises these operations among themselves: each is one
+     atomic step (the acquisition is not a separate step and does not wait for a join / finish in progress) *)
+  | KCancel t => goto (modify s t (fun x => set_gh (set_cancelled x true) (g_creq (gh x)))) (Done 0 None)
+  | KTest =>
+      if cancel_enabled th && cancelled th then
+        Some (modify s j (fun x => set_main (set_gh (set_result x CANCELED) (g_acted (gh x) (clock s))) FLock))
+      else goto s (Done 0 None)
+  | KSet b => Some (modify s j (fun x => set_main (set_cancel_enabled x b) (Done 0 None)))
   | FLock => acquire s j j FReadJoin
   | FReadJoin =>
       let s1 := match join_thread th with Some w => wake s w | None => s end in
@@ -450,7 +486,7 @@ Definition label (s : state) (j : nat) (in_cb : bool) : string :=
 (** the activity's next step is a silent one (lock acquisition / leaving the wait loop) *)
 Definition silent (s : state) (j : nat) : bool :=
   match main (gt s j) with
-  | JLock _ | JSpin _ | TLock _ _ | TBusy _ | DLock _ | DSpin _ | FLock => true
+  | JLock _ | JSpin _ | TLock _ _ | TBusy _ | DLock _ | DSpin _ | FLock | KCancel _ | KTest | KSet _ => true
   | _ => false
   end.
 
@@ -466,8 +502,8 @@ Definition target (s : state) (j : nat) (in_cb : bool) : option nat :=
   else
     match main th with
     | JLock t | JCheck t | JSusp t | JSpin t | JReap t | TLock t _ | TCheck t _ | TBusy t
-    | DFast t | DLock t | DCheck t | DSet t | DSpin t | DReap t => Some t
-    | Created _ | FLock | FReadJoin => Some j
+    | DFast t | DLock t | DCheck t | DSet t | DSpin t | DReap t | KCancel t => Some t
+    | Created _ | FLock | FReadJoin | KTest | KSet _ => Some j
     | _ => None
     end.
 
